@@ -101,9 +101,9 @@ def check_property(prop, tier, only=None, jobs=None, verbose=True):
     for c in conds:
         ex = [k["region"] for k in known if k.get("condition") == c.name and k.get("region")]
         to = c.timeout.get(tier, 40)
-        work.append((("check", c.name), c, ex, to * 3 + 120))
+        work.append((("check", c.name), c, ex, to * 5 + 300))
         if c.kind == "crosshair":
-            work.append((("twin", c.name), c, ex, 120 * 3 + 120))
+            work.append((("twin", c.name), c, ex, 120 * 5 + 300))
     # longest first
     work.sort(key=lambda w: -w[3])
     results = {}
